@@ -26,7 +26,7 @@ RULE = (
 ASSUMPTIONS = ["queries that exceed the line budget of the (combinatorial) search are undecided and counted"]
 FLOORS = {"quick": {"queries_decided": 200, "renumbered_queries": 300, "outside_queries": 60, "distinct_nontrivial": 60}, "thorough": {"queries_decided": 20000}}
 LINE_BUDGET = 6_000_000
-UNITS = ["CO", "CC", "CCO", "CS", "C(F)F", "CC(C)C(=O)OC", "CN"]
+UNITS = ["CO", "CC", "CCO", "CS", "C(F)C", "CC(C)C(=O)OC", "CN"]
 FAMS = [
     ("gauss", lambda m: (round(4 * m, 1), round(1.5 * m, 1))), ("gauss", lambda m: (round(2 * m, 1), round(0.8 * m, 1))), ("uniform", lambda m: (int(1.2 * m), int(7 * m))),
     ("log_normal", lambda m: (round(4 * m, 1), 1.3)), ("poisson", lambda m: (round(3.5 * m),)), ("flory_schulz", lambda m: (round(1 / (2 * m), 5),)),
@@ -171,6 +171,15 @@ def run_case(case):
     total = 0.0
     total_ref = 0.0
     decided_all = True
+    member_canon = set()
+    # every molecule prefix + units^n (n >= 1 per block) + suffix is a member; remember a generous set of them
+    if start == "prefix":
+        import itertools as _it
+
+        for ls in _it.product(range(1, 7), repeat=len(blocks)):
+            mm = parse_keep_h(chain_smiles(blocks, ls, head, tail))
+            if mm is not None:
+                member_canon.add(Chem.MolToSmiles(mm))
     for lengths in combos:
         if start == "prefix":
             smi = chain_smiles(blocks, lengths, head, tail)
@@ -261,11 +270,20 @@ def run_case(case):
         outs.append(chain_smiles(blocks, lengths, head, "[Si]"))
         outs.append(chain_smiles(blocks, lengths, "P", tail))
         outs.append(head + "[Se]" + "".join(u * n for (u, m), n in zip(blocks, lengths)) + tail)
+        # a block that contributes no unit at all is outside the ensemble (at least one unit is always added)
+        for b in range(len(blocks)):
+            zl = tuple(0 if i == b else n for i, n in enumerate(lengths))
+            outs.append(chain_smiles(blocks, zl, head, tail))
+        outs.append(head + tail)
         if len(blocks) >= 2 and blocks[0][0] != blocks[1][0]:
             outs.append(chain_smiles(list(reversed(blocks)), tuple(reversed(lengths)), head, tail) if chain_smiles(list(reversed(blocks)), tuple(reversed(lengths)), head, tail) != base else None)
     else:
         outs.append("[Si]" + blocks[0][0] * lengths[0] + "[Se]")
         outs.append("P" + blocks[0][0] * lengths[0] + "P")
+        st = stoch[0][1]
+        e_out = [t for t in st.ends if t.descriptors()[0][0].sym == "<"][0].atoms[0].atom
+        e_in = [t for t in st.ends if t.descriptors()[0][0].sym == ">"][0].atoms[0].atom
+        outs.append(e_in + e_out)  # no repeat unit at all
     for smi in outs:
         if not smi or parse_keep_h(smi) is None:
             continue
@@ -282,7 +300,8 @@ def run_case(case):
         if got > 0:
             # symmetric cases where the 'swapped' molecule is still a member are excluded by the reference
             want = reference(lengths, Chem.MolToSmiles(parse_keep_h(smi)))
-            if want is not None and want == 0.0:
+            member = Chem.MolToSmiles(parse_keep_h(smi)) in member_canon
+            if (want is not None and want == 0.0) and not member:
                 viol.append({"cls": "c19.outside-molecule-gets-positive-probability", "msg": f"P({smi}) = {got!r} although generation can never produce it", "text": text, "smiles": smi})
     cnt.update(trace.take_counters())
     cnt["evaluations"] = cnt["queries_decided"] + cnt["renumbered_queries"] + cnt["outside_queries"]
